@@ -2036,6 +2036,13 @@ func abs(x float64) float64 {
 	return x
 }
 
+// Limits of the preserve-layout rendering: positions come from the content stream, so the padding
+// they are turned into (spaces per line, blank lines between lines) is bounded.
+const (
+	maxLayoutColumns    = 1000
+	maxLayoutBlankLines = 100
+)
+
 // extractPreserveLayout maintains spatial positioning by inserting spaces
 // to approximate the visual layout of the original document. This is useful
 // for forms, invoices, or any document where spatial positioning carries meaning.
@@ -2163,6 +2170,11 @@ func (e *Extractor) extractPreserveLayout(fragments []text.TextFragment, pageWid
 			if gapInLines < 1 {
 				gapInLines = 1
 			}
+			// Coordinates come from the content stream: a fragment placed a billion points away
+			// must not be rendered as a billion blank lines.
+			if gapInLines > maxLayoutBlankLines {
+				gapInLines = maxLayoutBlankLines
+			}
 
 			// Add newlines (1 for normal line break, more for vertical gaps)
 			for i := 0; i < gapInLines; i++ {
@@ -2181,6 +2193,10 @@ func (e *Extractor) extractPreserveLayout(fragments []text.TextFragment, pageWid
 			targetCol := int(frag.X / charWidth)
 			if targetCol < 0 {
 				targetCol = 0
+			}
+			// ... nor as a line padded with a billion spaces
+			if targetCol > maxLayoutColumns {
+				targetCol = maxLayoutColumns
 			}
 
 			// Add spaces to reach target column
